@@ -310,6 +310,17 @@ impl Span {
         final(self).span1 == old(self).span1,
 /*@end*/
 }
+// ---- the caller chain of set_info: every grammar action builds its location as `Span::new(l, r).under_loc_ctx(loc)` ----
+impl Span {
+/*@fn lang/utils/src/span.rs :: impl Span :: fn new
+ret out
+@*/
+    ensures
+        // [SPAN-NEW] the byte range is exactly the pair the parser handed over; no line/column, no file yet
+        out.span1 == ($p0, $p1), out.span2 is None, out.path is None,
+/*@end*/
+// under_loc_ctx itself (`mut self`) is rejected by the installed Verus ("does not yet support: mut self"): not under contract.
+}
 
 // ---- vacuity guards ----
 pub proof fn reach_trans_span2(f: FileInfo)
